@@ -36,12 +36,18 @@ impl BoxedUint {
     }
 
     /// Computes self / rhs, returns the quotient, remainder.
+    ///
+    /// Panics if `rhs` does not have the same precision as `self`
+    /// (the variable-time [`BoxedUint::div_rem_vartime`] accepts mixed precisions).
     pub fn div_rem(&self, rhs: &NonZero<Self>) -> (Self, Self) {
         // Since `rhs` is nonzero, this should always hold.
         self.div_rem_unchecked(rhs.as_ref())
     }
 
     /// Computes self % rhs, returns the remainder.
+    ///
+    /// Panics if `rhs` does not have the same precision as `self`
+    /// (the variable-time [`BoxedUint::rem_vartime`] accepts mixed precisions).
     pub fn rem(&self, rhs: &NonZero<Self>) -> Self {
         self.div_rem(rhs).1
     }
@@ -105,7 +111,7 @@ impl BoxedUint {
     ///
     /// This function exists, so that all operations are accounted for in the wrapping operations.
     ///
-    /// Panics if `rhs == 0`.
+    /// Panics if `rhs` does not have the same precision as `self`.
     pub fn wrapping_div(&self, rhs: &NonZero<Self>) -> Self {
         self.div_rem(rhs).0
     }
